@@ -399,3 +399,22 @@ package utreexo
 //@ func (m *MapPollard) VerifyPartialProof(origTargets []uint64, delHashes []Hash, proofHashes []Hash, remember bool) (err error)
 //@   requires m.TotalRows <= 63 && m.NumLeaves <= pow2(63)
 //@   loop 1: invariant 0 <= proofHashIdx
+
+// ---------------------------------------------------------------------------
+// C13: restore reads every field completely (io.Reader contract: short reads are allowed)
+//   ghost allFull : every read so far either failed or filled its buffer
+//   ghost ioBytes : number of bytes consumed so far
+// ---------------------------------------------------------------------------
+
+//@ func (m *MapPollard) Read(r io.Reader) (n int, err error)
+//@   ensures err == nil ==> allFull
+//@   ensures err == nil ==> n == ioBytes
+//@   loop 1: invariant allFull && totalBytes == ioBytes && 0 <= i
+//@   loop 2: invariant allFull && totalBytes == ioBytes && 0 <= i
+
+//@ func RestorePollardFrom(r io.Reader) (n int64, p *Pollard, err error)
+//@   ensures err == nil ==> allFull
+//@   loop 1: invariant allFull
+
+//@ func (p *Pollard) readOne(n *polNode, r io.Reader) (cnt int64, err error)
+//@   ensures err == nil ==> allFull
